@@ -156,7 +156,9 @@ pub fn minimise(
     if !fails(&cur) {
         return cur;
     }
-    let mut budget = byte_budget;
+    // budget counted in evaluations, scaled by the size of the case (no wall clock involved)
+    let size = case.medium.len() + case.script.len() + case.exec.len() + case.tasks.iter().map(|t| t.0.len() + t.1.len()).sum::<usize>();
+    let mut budget = byte_budget.min(40_000_000 / (size + 1)).max(200);
     // 1. simplest schedule first: no script at all (= full reads), then fewer entries
     let mut c = cur.clone();
     c.script.clear();
@@ -305,5 +307,65 @@ pub fn fix_caps(c: &mut StreamCase) {
         if c.buf_cap < c.msg_max {
             c.buf_cap = c.msg_max;
         }
+    }
+}
+
+// ---------------------------------------------------------------------------------------------
+// The harness's calling discipline, shared by the blocking and the async scenario: keep calling
+// `read_message` until the Cutter (on the full medium) says the stream is over, then twice more.
+// ---------------------------------------------------------------------------------------------
+
+pub struct CallPlan<'d> {
+    data: &'d [u8],
+    storage: bool,
+    pos: usize,
+    extra_left: u32,
+    in_extra: bool,
+    pub terminal_calls: usize,
+    pub calls: usize,
+    max_main: usize,
+}
+
+#[derive(PartialEq, Debug)]
+pub enum Next {
+    Again,
+    Stop,
+}
+
+impl<'d> CallPlan<'d> {
+    pub fn new(data: &'d [u8], storage: bool) -> Self {
+        let (p, _) = crate::model::cut_all(data, storage);
+        CallPlan { data, storage, pos: 0, extra_left: 2, in_extra: false, terminal_calls: 0, calls: 0, max_main: p.len() + 1 }
+    }
+    /// `failed`: the source has returned a hard error
+    pub fn after(&mut self, res: &crate::model::Res, failed: bool) -> Next {
+        use crate::model::{cut_at, Cut, Res};
+        self.calls += 1;
+        if res.is_panic() || failed {
+            if !self.in_extra {
+                self.terminal_calls = self.calls;
+            }
+            return Next::Stop;
+        }
+        if self.in_extra {
+            self.extra_left -= 1;
+            return if self.extra_left == 0 { Next::Stop } else { Next::Again };
+        }
+        let terminal = match cut_at(self.data, self.pos, self.storage) {
+            Cut::Piece(n) => {
+                self.pos += n;
+                *res == Res::None || self.calls >= self.max_main
+            }
+            Cut::ShortLen(_) => {
+                self.terminal_calls = self.calls;
+                return Next::Stop;
+            }
+            _ => true,
+        };
+        if terminal {
+            self.terminal_calls = self.calls;
+            self.in_extra = true;
+        }
+        Next::Again
     }
 }
